@@ -171,6 +171,26 @@ def gen(rng, tier):
     # sign of the exact result), carries that overflow, and the values just inside
     for c in range_edge_cases(rng, 200 * n):
         yield c
+    # (ii-c) operands that agree on the leading word and differ at the extremes of the word range in lower words
+    EXT = [0, 1, 2**63 - 1, 2**63, 2**63 + 1, B - 1, B - 2, 5 * 10**18, 10**18]
+    for _ in range(120 * n):
+        top = rng.randrange(B // 10, B)
+        k = rng.randint(1, 3)
+        def mk():
+            v_ = top
+            for _ in range(k):
+                v_ = v_ * B + (rng.choice(EXT) if rng.random() < 0.8 else rng.randrange(B))
+            return v_
+        a, b = mk(), mk()
+        e = rng.randint(-40, 40)
+        sx = rng.randint(0, 1)
+        opn = rng.choice(["Add", "Sub"])
+        sy = 1 - sx if opn == "Add" else sx           # effective signs opposite: a true subtraction
+        x = fin(a, e, neg=sx, mode=rng.randint(0, 5), pad=rng.choice([0, 0, 1]))
+        y = fin(b, e, neg=sy, mode=rng.randint(0, 5), pad=rng.choice([0, 0, 1]))
+        z = recv(rng, prec=rng.choice(PRECS + [0]))
+        shape = rng.choice(["0 1 2", "0 2 1", "1 1 2", "2 1 2"])
+        yield dict(family="equal-top-word", vars=[z, x, y], ops=["%s %s" % (opn, shape)])
     # (iii) Mul / Quo
     for _ in range(500 * n):
         p = rng.choice(PRECS + [0])
